@@ -185,7 +185,9 @@ def required_cells(tier):
         "api:pttebd": 10, "e2e:m<=30": 500, "e2e:m>30": 4,
         "e2e:quotient-below-integer": 20,
         "pttempo-refuses-n<2": 4, "tebd:query-between-computes": 2,
-        "num_steps:0": 20, "num_steps:>0": 20, "reimported-pt:file": 5,
+        "num_steps:0": 20, "num_steps:>0": 20,
+        "container:add-shuffled": 2, "container:constructor-unsorted": 2,
+        "container:merge-two-runs": 2, "reimported-pt:file": 5,
         "reimported-pt:simple": 5,
     }
     req = {"pts/" + k: v for k, v in pts.items()}
@@ -251,6 +253,9 @@ def cases(tier, seed):
                     break
         out.append({"kind": "e2e", "dt": dt, "start": st, "dti": i, "sti": j,
                     "ms": [m], "seed": seed, "tier": tier, "beyond": True})
+    for k in range(9 if tier == "quick" else 60):
+        out.append({"kind": "container", "idx": k, "seed": seed,
+                    "tier": tier})
     # PT-TEBD
     rng = gen.rng_for(seed, "c13tebd")
     for i, dt in enumerate(dts):
@@ -965,7 +970,84 @@ def run_tebd(case):
                 "state_dev": worst})
 
 
+def run_container(case):
+    """The dynamics containers themselves: entries given or added in any
+    order come out sorted by time with every state (and field) still next to
+    ITS time - also when two computed dynamics with interleaved grids are
+    merged entry by entry."""
+    import oqupy
+    i = case["idx"]
+    rng = gen.rng_for(case["seed"], "c13cont", i)
+    book = Book()
+    n = int(rng.integers(4, 12))
+    times = sorted({round(float(t), 6) for t in rng.uniform(-2, 5, size=n)})
+    n = len(times)
+
+    def st(t, d=2):
+        return np.array([[t, 1j * t], [-1j * t, 1 - t]], dtype=complex)[:d, :d]
+
+    def fld(t):
+        return complex(2 * t + 1, -t)
+    order = [int(x) for x in rng.permutation(n)]
+    mode = ["add-shuffled", "constructor-unsorted", "merge-two-runs"][i % 3]
+    book.cell("container:" + mode)
+    if mode == "constructor-unsorted":
+        dyn = oqupy.Dynamics(times=[times[k] for k in order],
+                             states=[st(times[k]) for k in order])
+        mfd = oqupy.MeanFieldDynamics(
+            times=[times[k] for k in order],
+            system_states_list=[[st(times[k]), st(times[k])] for k in order],
+            fields=[fld(times[k]) for k in order])
+    else:
+        dyn = oqupy.Dynamics()
+        mfd = oqupy.MeanFieldDynamics()
+        seq = order
+        if mode == "merge-two-runs":
+            # two runs on interleaved grids: all even entries, then all odd
+            seq = list(range(0, n, 2)) + list(range(1, n, 2))
+        for k in seq:
+            dyn.add(times[k], st(times[k]))
+            mfd.add(times[k], [st(times[k]), st(times[k])], fld(times[k]))
+    det = {"mode": mode, "n": n}
+    for name, tt in (("Dynamics", dyn.times), ("MeanFieldDynamics",
+                                                mfd.times)):
+        tt = [float(x) for x in tt]
+        if tt != times:
+            book.violation(f"{name} ({mode}): times are {tt}, expected the "
+                           f"sorted list {times}", "container-times",
+                           dict(det, got=tt))
+    for k, t in enumerate(dyn.times):
+        book.count("states_aligned")
+        if np.abs(np.array(dyn.states)[k] - st(float(t))).max() > 1e-12:
+            book.violation(f"Dynamics ({mode}): the state stored next to "
+                           f"time {float(t)} is not the one given for it",
+                           "container-misaligned", dict(det, index=k))
+            break
+    for k, t in enumerate(mfd.times):
+        book.count("fields_aligned")
+        if abs(complex(mfd.fields[k]) - fld(float(t))) > 1e-12:
+            book.violation(
+                f"MeanFieldDynamics ({mode}): the field recorded at time "
+                f"{float(t)} is {complex(mfd.fields[k])}, the field given "
+                f"for that time is {fld(float(t))}", "container-misaligned",
+                dict(det, index=k))
+            break
+        for sd in mfd.system_dynamics:
+            if len(sd.times) != len(mfd.times) or np.abs(
+                    np.array(sd.states)[k] - st(float(t))).max() > 1e-12:
+                book.violation(
+                    f"MeanFieldDynamics ({mode}): a system state next to "
+                    f"time {float(t)} is not the one given for it",
+                    "container-misaligned", dict(det, index=k))
+                break
+    return book.result(nontrivial=order != sorted(order),
+                       signature=f"container-{mode}-{i}", obs={},
+                       sample={"kind": "container", "mode": mode, "n": n})
+
+
 def run_case(case):
+    if case["kind"] == "container":
+        return run_container(case)
     if case["kind"] == "hook":
         return run_hook(case)
     if case["kind"] == "e2e":
